@@ -180,10 +180,63 @@ def run(ctx):
     return EXPL
 
 
-def check_forwarder(ctx, F, imp, b, tn, m, tgt, kind, key):
+class MappedProv:
+    """provenance inside a private helper the wrapper method delegates to, expressed in the wrapper's own coordinates: helper parameter k
+    is what the wrapper passes as argument k (`write_in_order(&self.0, &self.1, writer)`: parameter 1 = self.0, 3 = the wrapper's writer)"""
+    def __init__(self, inner, amap):
+        self.inner, self.amap = inner, amap
+        self.multi, self.b = inner.multi, inner.b
+
+    def _map(self, s):
+        out = set()
+        for x in s:
+            if x[0] == "arg":
+                for y in self.amap.get(x[1], ()):
+                    if y[0] == "arg":
+                        out.add(("arg", y[1], tuple(y[2]) + tuple(x[2])))
+                    elif y[0] == "const":
+                        out.add(y)
+                    elif y[0] in ("call", "callf"):
+                        out.add(("outer-call", y[1]))
+            else:
+                out.add(x)
+        return out
+
+    def operand(self, op, rest=(), _seen=None):
+        return self._map(self.inner.operand(op, rest, _seen))
+
+    def local(self, l, fields=(), _seen=None):
+        return self._map(self.inner.local(l, fields, _seen))
+
+    def place(self, place, rest=(), _seen=None):
+        return self._map(self.inner.place(place, rest, _seen))
+
+
+def find_delegate(F, b, pr, tgt, same_family):
+    """the wrapper method hands its parts to one private free function / inherent method of the crate that does the forwarding (shared by
+    two flavours of a wrapper, say): (helper body, the call, parameter map) when there is exactly one such call on every path"""
+    cands = []
+    for c in b.calls():
+        for hb in local_callee_bodies(F, c):
+            if hb.crate != b.crate or hb.kind == "Closure" or (hb.impl or {}).get("trait") or hb.def_ == b.def_:
+                continue
+            if any(x.name == tgt[1] and (same_family(x.trait) or same_family(x.callee.get("impl_trait"))) for x in hb.calls()) and len(c.args) == hb.arg_count:
+                cands.append((hb, c))
+    if len(cands) != 1:
+        return None
+    hb, c = cands[0]
+    if not exactly_once(b, [c.bb])[0]:
+        return None
+    return hb, c, {k + 1: pr.operand(a) for k, a in enumerate(c.args)}
+
+
+def check_forwarder(ctx, F, imp, b, tn, m, tgt, kind, key, outer=None):
+    wb = outer[0] if outer else b           # the wrapper method itself: its parameters are what must be passed on
     pr = Prov(b, adapters=ORDER_ADAPTERS, multi=MULTI,
               adapter_pred=lambda t: ((t.get("callee") or {}).get("name") == "map" and is_identity_closure(F, b, CallSite(b, -1, t))) or
               (t.get("callee") or {}).get("name") in ("as_ref", "deref", "borrow", "as_mut", "deref_mut", "clone", "into", "to_owned", "iter", "as_slice", "unwrap", "expect"))
+    if outer:
+        pr = MappedProv(pr, outer[2])
     for c in b.calls():
         if c.name in CARRIER_NAMES and c.def_.startswith("metrique") and c.def_ not in pr.multi:
             pr.multi[c.def_] = tuple(range(len(c.args)))
@@ -203,6 +256,7 @@ def check_forwarder(ctx, F, imp, b, tn, m, tgt, kind, key):
         t = trait_name(t)
         return t == tgt[0] or t == "Dyn" + tgt[0] or (tgt[0].startswith("Dyn") and t == tgt[0][3:])
     fwd = [c for c in b.calls() if c.name == tgt[1] and (same_family(c.trait) or same_family(c.callee.get("impl_trait")))]
+    delegate = find_delegate(F, b, pr, tgt, same_family) if not fwd and not outer else None
     # receiver derives from self
     fwd_self = []
     for c in fwd:
@@ -240,7 +294,7 @@ def check_forwarder(ctx, F, imp, b, tn, m, tgt, kind, key):
               "ordered sequence as the plain one" % ", ".join(t for _, t in reshaped[:3]), "no map/set collection, sort, dedup or reverse")
     # R15.3 a wrapper's own configuration survives the call: with `&mut self`, nothing but the forwarding call itself may mutate a field
     # of the wrapper (a field lent out with mem::take and handed back after a fallible call is lost on the error path)
-    if b.arg_count >= 1 and b.locals[1]["ty"].startswith("&mut ") and (imp.get("self_head") or {}).get("adt"):
+    if not outer and b.arg_count >= 1 and b.locals[1]["ty"].startswith("&mut ") and (imp.get("self_head") or {}).get("adt"):
         plain = Prov(b, adapter_pred=lambda t: (t.get("callee") or {}).get("name") in ("deref_mut", "as_mut", "borrow_mut", "deref", "as_ref", "new_unchecked", "get_mut"))
         touched = []
         for i in b.live_blocks():
@@ -249,7 +303,7 @@ def check_forwarder(ctx, F, imp, b, tn, m, tgt, kind, key):
                     if any(x[0] == "arg" and x[1] == 1 for x in plain.local(s_["lhs"]["l"])):
                         touched.append((i, "assigns ." + [e[2] for e in s_["lhs"]["p"] if e[0] == "f"][0]))
         for c in b.calls():
-            if c in fwd_self or c.diverges:
+            if c in fwd_self or c.diverges or (delegate and c is delegate[1]):
                 continue
             nm = c.name
             if nm in ("deref_mut", "as_mut", "borrow_mut", "new_unchecked", "get_mut") or c.is_trait_method("RngCore") or c.is_trait_method("Rng") or \
@@ -271,6 +325,14 @@ def check_forwarder(ctx, F, imp, b, tn, m, tgt, kind, key):
                   "filters changes for every later entry" % ", ".join(t for _, t in touched[:3]),
                   "no field of the wrapper is written or lent mutably except to the forwarding call")
     is_option = st.startswith("core::option::Option<")
+    if delegate:
+        # the forwarding proper is judged in the helper, in this method's coordinates; here: its result is this method's result
+        hb, d, amap = delegate
+        if (b.locals[0]["ty"] if b.locals else "()") not in ("()",):
+            ctx.check(not d.dest.get("p") and (d.dest["l"] == 0 or any(x[0] in ("call", "via") and x[1] == d.bb for x in pr.local(0))), "R15.2", key + "#returns-helper-result", loc(b, d.bb),
+                      "the result of the forwarding helper is not what the wrapper method returns")
+        check_forwarder(ctx, F, imp, hb, tn, m, tgt, kind, key, outer=(b, d, amap))
+        return
     if m == "sample_group":
         o = pr.local(0)
         okg = any(x[0] in ("call", "via") and x[1] in [c.bb for c in fwd_self] for x in o)
@@ -322,19 +384,19 @@ def check_forwarder(ctx, F, imp, b, tn, m, tgt, kind, key):
     # parameters reach the same position
     for c in fwd_self:
         # positional mapping: wrapper param j (local j) -> callee arg j-1, when arities agree
-        if len(c.args) != b.arg_count or tgt != (tn, m):
+        if len(c.args) != wb.arg_count or tgt != (tn, m):
             # cross-trait adapter: parameters must reach the call somewhere
-            for j in range(2, b.arg_count + 1):
+            for j in range(2, wb.arg_count + 1):
                 anywhere = any(any(x[0] == "arg" and x[1] == j for x in pr.operand(a)) for a in c.args)
-                ctx.check(anywhere, "R15.2", key + "#passes-" + (b.local_name(j) or "arg%d" % j), loc(b, c.bb), "parameter %d does not reach the adapted call" % j)
+                ctx.check(anywhere, "R15.2", key + "#passes-" + (wb.local_name(j) or "arg%d" % j), loc(b, c.bb), "parameter %d does not reach the adapted call" % j)
             continue
-        for j in range(2, b.arg_count + 1):
-            pty = b.locals[j]["ty"]
+        for j in range(2, wb.arg_count + 1):
+            pty = wb.locals[j]["ty"]
             o = pr.operand(c.args[j - 1])
             has = any(x[0] == "arg" and x[1] == j for x in o)
             foreign_calls = [x for x in o if x[0] == "call"]
             consts = [x for x in o if x[0] == "const"]
-            pname = b.local_name(j) or ("arg%d" % j)
+            pname = wb.local_name(j) or ("arg%d" % j)
             if "io::Write" in pty or pname in ("output",):
                 ctx.check(has, "R15.2", key + "#passes-" + pname, loc(b, c.bb), "the output writer is not passed through")
                 continue
